@@ -11,12 +11,16 @@ UNITS = {
 PROPS = {
     "C14": dict(
         level="exploration",
-        technique="property-based testing (rapid) plus, in the thorough tier, native coverage-guided go fuzzing: differential against bit-level / big-integer reference models",
+        technique="property-based testing (rapid) plus, in the thorough tier, native coverage-guided go fuzzing: differential against bit-level / big-integer reference models; structural check of the routing-table numbers in generated datapath configs",
         rule="cases drawn by rapid generators. Classifier cases: a CIDR (every prefix 0..32/0..128, byte/word boundaries and neighbours over-represented, "
              "IPNet with/without host bits, IPv4 in 4- and 16-byte form) plus 1..4 probe addresses (inside; inside with one bit flipped at prefix boundary -2..+2; arbitrary) "
              "in a header whose other address field holds an unrelated/inside/complement address; non-trivial = prefix length not a multiple of 8 (IPv4) / 32 (IPv6) or a one-bit-flip probe. "
              "Gateway cases: non-trivial = prefix not byte aligned, subnet with <= 2 host bits, or network with a leading zero byte. "
              "Table-id cases: 1..8 link indexes incl. neighbours and values equal modulo 2^8/2^16/1000; non-trivial = >= 2 distinct indexes. "
+             "Per-interface-table cases: a pod of 1..4 interfaces with distinct link indexes (steps 1/2/256/1000/65536), each with a datapath (ipvlan, exclusive ENI, veth+policy route, vlan), "
+             "family (IPv4 only / IPv6 only / dual), strip-vlan, extra routes, pod-wide MultiNetwork on/off and one default-route interface; the real config generators run on fake links and every rule / "
+             "non-main-table route must name GetRouteTableID(that link's index), each family of a multi-network interface must have its source rule and default route in that table, interfaces never share a table "
+             "(veth host side: same per ENI); non-trivial = MultiNetwork with >= 2 interfaces or an IPv6-only interface. "
              "Name cases: (namespace, name, prefix <= 4 bytes, 1..8 interface names); non-trivial = >= 2 distinct interfaces. distinct = distinct scenario hash",
         assumptions=[
             "tc u32 semantics: a key matches when the big-endian 32-bit word at byte offset Off of the network header ANDed with Mask equals Val; keys are ANDed; an empty key list matches every packet; IPv4 src/dst at 12/16, IPv6 src/dst at 8/24",
@@ -25,7 +29,7 @@ PROPS = {
             "or expected result lies in ::ffff:0:0/96 are generated, counted (label outside-domain:*) and not judged",
             "interface-name prefixes are at most 4 bytes (every caller passes \"cali\")",
         ],
-        level_text="generated addresses/prefixes/indexes/names checked against independent bit-level and big-integer reference models; exploration, not proof",
+        level_text="generated addresses/prefixes/indexes/names checked against independent bit-level and big-integer reference models, and generated pod interface sets run through the datapath config generators to check the table number each interface actually gets; exploration, not proof",
         level_note="trusts Go's net and math/big as the reference; u32 semantics modelled (value/mask at byte offset into the IP header), not executed in the kernel; "
                    "the model demands keys in canonical form (Val has no bit outside Mask), which is what cls_u32's ((word^Val)&Mask)==0 reduces to for such keys; "
                    "name distinctness is checked per pod over sampled interface names (the name keeps 44 bits of a hash, so distinctness is probabilistic by design); "
@@ -35,6 +39,7 @@ PROPS = {
             dict(unit="c14tc", test="TestVerifC14U32Src", quick=80000, thorough=4000000),
             dict(unit="c14datapath", test="TestVerifC14DstIPRule", quick=40000, thorough=2000000),
             dict(unit="c14drvutils", test="TestVerifC14RouteTableID", quick=8000, thorough=400000),
+            dict(unit="c14datapath", test="TestVerifC14IfaceTables", quick=16000, thorough=800000),
             dict(unit="c14link", test="TestVerifC14VethName", quick=24000, thorough=1000000),
             # thorough tier only: native coverage-guided fuzzing of the same oracles
             dict(unit="c14tc", fuzz="FuzzVerifC14U32Src", seconds=45),
